@@ -24,8 +24,8 @@ import (
 	"github.com/dave/dst/decorator/resolver"
 	"github.com/dave/dst/decorator/resolver/goast"
 	"github.com/dave/dst/decorator/resolver/gobuild"
-	"github.com/dave/dst/decorator/resolver/simple"
 	"github.com/dave/dst/decorator/resolver/guess"
+	"github.com/dave/dst/decorator/resolver/simple"
 )
 
 func init() { register("C16", "model_checking", checkC16) }
